@@ -163,11 +163,15 @@ def build_cases(ctx: Ctx, n, fx):
         Ts = [None, []]
         if "ok" in c.unt and c.unt["ok"]:
             full = list(c.unt["ok"])
-            Ts.append(full)
             if len(full) > 1:
+                # the refused loads come first: an accepted load imports what it was allowed to, and would hide a later
+                # refused load that imports the same module before its verdict
                 Ts.append(full[1:])
+                Ts.append(full[:-1])
+                Ts.append(full)
                 Ts.append(list(reversed(full)) + [full[0], "junk.name"])
             else:
+                Ts.append(full)
                 Ts.append(full + ["another.name"])
         c.Ts = Ts
         cases.append(c)
